@@ -364,3 +364,164 @@ def write_bam(sc, reads, path, read_groups=True, sort=True, extra_tags=None, unm
 def truth_alleles(sc, sample, chrom):
     """{1-based pos: (allele on hap0, allele on hap1)}"""
     return {v.pos + 1: sc.haps[sample][chrom][i] for i, v in enumerate(sc.variants[chrom])}
+
+
+# ---------------------------------------------------------------------------------------- polyploid data (added for C15)
+class PolyVariant:
+    """Variant with one or more ALT alleles; allele index 0 = ref, a >= 1 = alts[a-1]."""
+    __slots__ = ("pos", "ref", "alts", "kind")
+
+    def __init__(self, pos, ref, alts, kind):
+        self.pos, self.ref, self.alts, self.kind = pos, ref, list(alts), kind
+
+    def __repr__(self):
+        return f"PolyVariant({self.pos},{self.ref}>{','.join(self.alts)})"
+
+    def to_json(self):
+        return [self.pos, self.ref, self.alts, self.kind]
+
+
+class PolyScenario:
+    """ref: {chrom: str}; variants: {chrom: [PolyVariant sorted by pos]}; ploidy k;
+    haps: {sample: {chrom: [tuple of k allele indices per variant]}} (true haplotypes, column-wise)."""
+
+    def __init__(self, ref, variants, samples, ploidy, haps):
+        self.ref, self.variants, self.samples, self.ploidy, self.haps = ref, variants, samples, ploidy, haps
+        self.chroms = list(ref)
+
+    def genotype(self, sample, chrom, i):
+        return tuple(sorted(self.haps[sample][chrom][i]))
+
+    def to_json(self):
+        return {"ref": self.ref, "variants": {c: [v.to_json() for v in vs] for c, vs in self.variants.items()},
+                "samples": self.samples, "ploidy": self.ploidy,
+                "haps": {s: {c: [list(x) for x in h] for c, h in d.items()} for s, d in self.haps.items()}}
+
+    @staticmethod
+    def from_json(d):
+        return PolyScenario(d["ref"], {c: [PolyVariant(*v) for v in vs] for c, vs in d["variants"].items()},
+                            d["samples"], d["ploidy"],
+                            {s: {c: [tuple(x) for x in h] for c, h in dd.items()} for s, dd in d["haps"].items()})
+
+
+def make_poly_scenario(rng, ploidy, nsamples=1, nvars=12, nchrom=1, kinds=("snv", "ins", "del", "mnp"),
+                       multiallelic_fraction=0.25, het_fraction=0.85, collapse_prob=0.4, min_gap=25,
+                       sample_names=None, chrom_names=None, chrom_len=None):
+    """Polyploid scenario: k true haplotypes per sample. A fraction of the SNVs gets a second/third ALT allele.
+    With probability collapse_prob (per sample and chromosome) one haplotype is made identical to another one on a
+    random interval of the variants (possibly all of them) - a collapsed region. het_fraction of the columns are
+    drawn heterozygous (at least two different alleles among the k), the others homozygous."""
+    chroms = chrom_names or [f"chr{chr(65 + i)}" for i in range(nchrom)]
+    samples = sample_names or [f"S{i + 1}" for i in range(nsamples)]
+    ref, variants = {}, {}
+    for c in chroms:
+        L = chrom_len or (200 + nvars * (min_gap * 3 + 10))
+        ref[c] = random_seq(rng, L)
+        vs = []
+        for v in make_variants(rng, ref[c], nvars, kinds=kinds, min_gap=min_gap):
+            alts = [v.alt]
+            if v.kind == "snv" and rng.random() < multiallelic_fraction:
+                others = [b for b in BASES if b != v.ref and b != v.alt]
+                rng.shuffle(others)
+                alts += others[:rng.choice([1, 1, 2])]
+            vs.append(PolyVariant(v.pos, v.ref, alts, v.kind))
+        variants[c] = vs
+    haps = {}
+    for s in samples:
+        haps[s] = {}
+        for c in chroms:
+            cols = []
+            for v in variants[c]:
+                na = 1 + len(v.alts)
+                if rng.random() < het_fraction:
+                    while True:
+                        col = [rng.randrange(na) for _ in range(ploidy)]
+                        if len(set(col)) > 1:
+                            break
+                else:
+                    col = [rng.randrange(na)] * ploidy
+                cols.append(col)
+            n = len(cols)
+            if n and ploidy >= 2 and rng.random() < collapse_prob:
+                for _ in range(rng.choice([1, 1, 2])):
+                    i, j = rng.sample(range(ploidy), 2)
+                    a = rng.randrange(n)
+                    b = rng.randint(a + 1, n) if rng.random() < 0.7 else n
+                    if rng.random() < 0.3:
+                        a = 0
+                    for p in range(a, b):
+                        cols[p][j] = cols[p][i]
+            haps[s][c] = [tuple(col) for col in cols]
+    return PolyScenario(ref, variants, samples, ploidy, haps)
+
+
+def simulate_poly_reads(rng, sc, sample, chrom, n_reads, len_range=(150, 400), hap_weights=None, hotspots=None,
+                        name_prefix=None, qual=30):
+    """Error-free reads of a polyploid sample. hap_weights: relative coverage of the k haplotypes (uneven coverage);
+    hotspots: list of (lo, hi, weight) reference intervals from which read starts are preferentially drawn.
+    Returns read dicts as simulate_reads (hap = index of the copied haplotype)."""
+    ref = sc.ref[chrom]
+    vs = sc.variants[chrom]
+    cols = sc.haps[sample][chrom]
+    k = sc.ploidy
+    L = len(ref)
+    w = list(hap_weights) if hap_weights else [1.0] * k
+    prefix = name_prefix or f"{sample}_{chrom}_r"
+    reads = []
+    for n in range(n_reads):
+        h = rng.choices(range(k), weights=w)[0]
+        length = rng.randint(*len_range)
+        if hotspots and rng.random() < 0.7:
+            lo, hi, _ = rng.choices(hotspots, weights=[x[2] for x in hotspots])[0]
+            s = rng.randint(max(0, lo - length // 2), max(0, min(hi, L - 12)))
+        else:
+            s = rng.randint(0, max(0, L - length - 1))
+        e = min(L - 1, s + length)
+        while s < e and not legal_boundary(vs, s):
+            s += 1
+        while e > s and not legal_boundary(vs, e):
+            e -= 1
+        if e - s < 10:
+            continue
+        tmp_vs, tmp_al = [], []
+        for v, col in zip(vs, cols):
+            a = col[h]
+            tmp_vs.append(Variant(v.pos, v.ref, v.alts[a - 1] if a > 0 else v.alts[0], v.kind))
+            tmp_al.append(0 if a == 0 else 1)
+        seq, cig = hap_walk(ref, tmp_vs, tmp_al, s, e)
+        reads.append(dict(name=f"{prefix}{n}", sample=sample, chrom=chrom, start=s, end=e, cigar=cig, seq=seq,
+                          qual=qual, hap=h, flag=0))
+    return reads
+
+
+def write_poly_vcf(sc, path, phased=None, gt_override=None, extra_header=(), info=".", extra_format=None):
+    """VCF of the true polyploid genotypes (ascending alleles joined by '/'). phased = {sample: {chrom: {i: ps}}}
+    writes the true haplotype alleles joined by '|' with PS for the listed variant indices.
+    gt_override = {(sample, chrom, i): 'text'} replaces a call verbatim. extra_format = (key, header_line, fn(sample, chrom, i) -> text)
+    appends one more FORMAT field to every call."""
+    lines = vcf_header(sc, extra_header)
+    if extra_format:
+        lines.insert(len(lines) - 1, extra_format[1])
+    for c in sc.chroms:
+        for i, v in enumerate(sc.variants[c]):
+            calls = []
+            anyps = phased is not None
+            for s in sc.samples:
+                col = sc.haps[s][c][i]
+                key = (s, c, i)
+                if gt_override and key in gt_override:
+                    call = gt_override[key]
+                else:
+                    ps = phased.get(s, {}).get(c, {}).get(i) if phased else None
+                    if ps is not None:
+                        call = "|".join(map(str, col)) + f":{ps}"
+                    else:
+                        call = "/".join(map(str, sorted(col))) + (":." if anyps else "")
+                if extra_format:
+                    call += ":" + extra_format[2](s, c, i)
+                calls.append(call)
+            fmt = ("GT:PS" if anyps else "GT") + (":" + extra_format[0] if extra_format else "")
+            lines.append(f"{c}\t{v.pos + 1}\t.\t{v.ref}\t{','.join(v.alts)}\t.\tPASS\t{info}\t{fmt}\t" + "\t".join(calls))
+    with open(path, "w") as f:
+        f.write("\n".join(lines) + "\n")
+    return path
